@@ -99,7 +99,16 @@ inline std::string uri_resolve(const std::string& base, const std::string& rel) 
 inline std::string uri_target(const std::string& abs) {
     Uri u = uri_parse(abs);
     if (!u.hasScheme) return u.path;
-    if (u.scheme == "file" && (u.auth.empty() || u.auth == "localhost")) return u.path;
+    if (u.scheme == "file" && (u.auth.empty() || u.auth == "localhost")) {
+        // the file that a file: URL names: every %xx escape of the path decoded exactly once (RFC 2396 2.4.2)
+        std::string o;
+        auto hex = [](char c) { return c >= '0' && c <= '9' ? c - '0' : c >= 'a' && c <= 'f' ? c - 'a' + 10 : c >= 'A' && c <= 'F' ? c - 'A' + 10 : -1; };
+        for (size_t i = 0; i < u.path.size(); i++) {
+            if (u.path[i] == '%' && i + 2 < u.path.size() + 0 && hex(u.path[i + 1]) >= 0 && hex(u.path[i + 2]) >= 0) { o += (char)(hex(u.path[i + 1]) * 16 + hex(u.path[i + 2])); i += 2; }
+            else o += u.path[i];
+        }
+        return o;
+    }
     return uri_recompose(u);
 }
 
